@@ -259,6 +259,7 @@ retry:
         value* vp = lv->get_value();
         base_node* next_layer = lv->get_next_layer();
         node_version64* node_version_ptr = bn->get_version_ptr();
+        YAKUSHIMA_VERIF_POINT(3);
         /**
          * This verification may seem verbose, but it can also be considered
          * an early abort.
